@@ -108,14 +108,32 @@ def group(tag, M):
         return "affine_det%s" % ("+" if det > 0 else "-")
     if base == "aniso_rot":
         return "aniso"
+    if base in ("similarity", "mirror_similarity"):
+        return base + ("_small" if s < 1e-2 else ("_large" if s > 1e2 else ""))
     return base
+
+
+def class_of_matrix(M):
+    """class of a matrix nobody labelled (a product, the step of a composition that was refused)"""
+    det, sim, s, band = props(M)
+    if band:
+        return "near_identity_inside"
+    if sim == "yes":
+        base = ("mirror" if det < 0 else "rigid") if abs(s - 1) < 1e-9 else ("mirror_similarity" if det < 0 else "similarity")
+        return base + ("_small" if s < 1e-2 else ("_large" if s > 1e2 else ""))
+    return "nonsimilarity_det%s" % ("+" if det > 0 else "-")
 
 
 def all_matrices(rng, dim):
     out = list(gmat.matrices(rng, dim=dim))
     # similarities with negative determinant and a scale (not produced by gen.matrix)
     rig = [M for t, M in out if t == "rigid"]
-    for k, s in enumerate((0.5, 2.0, 1e3 if dim == 3 else 3.0)):
+    # gen.matrix only emits similarity scales 0.5 and 2: add the 1e-3 / 1e3 the design asks for
+    for k, sc in enumerate((1e-3, 1e3)):
+        M = rig[k % len(rig)].copy()
+        M[:dim, :dim] *= sc
+        out.append(("similarity:%g" % sc, M))
+    for k, s in enumerate((0.5, 2.0, 1e3, 1e-3)):
         M = rig[k % len(rig)].copy()
         Mx = np.eye(dim + 1)
         Mx[k % dim, k % dim] = -1
@@ -228,11 +246,13 @@ class Kind:
         raise NotImplementedError
 
     def structure_law(self, run, s0, s1, M, key, case):
-        """default: structure identical"""
+        """default: structure identical; returns False when violated"""
         if s0.structure != s1.structure:
             run.violation(key("law=connectivity_kept"), "%s: counts / connectivity changed by the transform" % self.name, case)
+            return False
+        return True
 
-    def extra_laws(self, run, obj, s0, s1, M, key, case):
+    def extra_laws(self, run, obj, s0, s1, M, key, case, loose=False):
         pass
 
 
@@ -313,24 +333,29 @@ class MeshKind(Kind):
         F0, F1 = s0.structure, s1.structure
         if F0.shape != F1.shape:
             run.violation(key("law=face_count_kept"), "number of faces changed", case)
-            return
+            return False
         run.count("mesh_flips_expected" if det < 0 and not band else "mesh_noflip_expected")
         same = _cyclic_equal(F0, F1)
         rev = _cyclic_equal(F0[:, ::-1], F1)
         if band and same.all():
-            return
+            return True
+        ok = True
         if det > 0 and not same.all():
+            ok = False
             sym = "rewound" if rev.all() else "faces_changed"
             run.violation(key("law=winding sym=%s_although_det>0" % sym), "faces were re-wound / altered although det M > 0", case)
         if det < 0 and not rev.all():
+            ok = False
             sym = "not_rewound" if same.all() else "faces_changed"
             run.violation(key("law=winding sym=%s_although_det<0" % sym),
                           "det M < 0 but faces were not re-wound exactly (normals would point inward)", case)
         if det < 0 and rev.all():
             run.count("mesh_flips_observed")
+        return ok
 
-    def extra_laws(self, run, m, s0, s1, M, key, case):
+    def extra_laws(self, run, m, s0, s1, M, key, case, loose=False):
         det, sim, s, band = props(M)
+        band = band or loose  # a factor of a composition may legitimately have been skipped
         V0, F0, V1, F1 = s0.points, s0.structure, s1.points, s1.structure
         if V1.shape != V0.shape or F1.shape != F0.shape or not np.isfinite(V1).all():
             return
@@ -364,7 +389,8 @@ class MeshKind(Kind):
             tol_c = ex1.tol_center_mass() + (1e-7 if band else 1e-10) * (1 + np.abs(c1).sum())
             if self.override:
                 cov = apply_ref(M, s0.extra["com_override"][None])[0]
-                api("center_mass_override_moved", lambda: m.center_mass, cov, point_tol(M, cov[None])[0])
+                api("center_mass_override_moved", lambda: m.center_mass, cov,
+                    (2e-8 if band else 1e-11 * (1.0 + float(np.abs(M).max()))) * (1.0 + float(np.abs(cov).sum())))
             else:
                 api("center_mass_maps_through_M", lambda: m.center_mass, c1, tol_c)
                 if sim == "yes":
@@ -450,7 +476,7 @@ class CloudKind(Kind):
     def snap(self, pc):
         return Snap(np.array(pc.vertices), len(pc.vertices), {"colors": freeze(np.array(pc.colors)), "metadata": freeze(pc.metadata)})
 
-    def extra_laws(self, run, pc, s0, s1, M, key, case):
+    def extra_laws(self, run, pc, s0, s1, M, key, case, loose=False):
         b = np.asarray(pc.bounds)
         want = np.array([s1.points.min(axis=0), s1.points.max(axis=0)])
         if np.abs(b - want).max() > 0:
@@ -490,7 +516,7 @@ class PathKind(Kind):
         st = tuple((type(e).__name__, tuple(int(i) for i in e.points), bool(e.closed)) for e in p.entities)
         return Snap(np.array(p.vertices), st, {"metadata": freeze(p.metadata), "layers": freeze(list(p.layers))})
 
-    def extra_laws(self, run, p, s0, s1, M, key, case):
+    def extra_laws(self, run, p, s0, s1, M, key, case, loose=False):
         V1 = s1.points
         if V1.shape != s0.points.shape or not np.isfinite(V1).all():
             return
@@ -593,7 +619,7 @@ class PrimitiveKind(Kind):
         return Snap(np.array(p.vertices), st, {"metadata": freeze({k: v for k, v in p.metadata.items()})},
                     dict(extra, faces=np.array(p.faces, dtype=np.int64)))
 
-    def extra_laws(self, run, p, s0, s1, M, key, case):
+    def extra_laws(self, run, p, s0, s1, M, key, case, loose=False):
         det, sim, s, band = props(M)
         V1, F1 = s1.points, s1.extra["faces"]
         if not np.isfinite(V1).all() or len(V1) == 0:
@@ -676,7 +702,7 @@ class SceneKind(Kind):
         return Snap(pts, st, {"geometry_untouched": freeze(geom), "metadata": freeze(sc.metadata)},
                     {"dump_points": dpts, "dump_faces": [np.array(d.faces) for d in dumped], "dump_vol": [float(exact_mass(np.asarray(d.vertices), np.asarray(d.faces)).volume) for d in dumped]})
 
-    def extra_laws(self, run, sc, s0, s1, M, key, case):
+    def extra_laws(self, run, sc, s0, s1, M, key, case, loose=False):
         det, sim, s, band = props(M)
         d0, d1 = s0.extra["dump_points"], s1.extra["dump_points"]
         want = apply_ref(M, d0)
@@ -728,7 +754,7 @@ class VoxelKind(Kind):
                     {"occupancy": freeze(np.array(vg.matrix)), "metadata": freeze(vg.metadata)},
                     {"corners_world": apply_ref(T, corners), "bounds": np.array(vg.bounds)})
 
-    def extra_laws(self, run, vg, s0, s1, M, key, case):
+    def extra_laws(self, run, vg, s0, s1, M, key, case, loose=False):
         det, sim, s, band = props(M)
         cw = apply_ref(M, s0.extra["corners_world"])
         want = np.array([cw.min(axis=0), cw.max(axis=0)])
@@ -798,7 +824,9 @@ def check_cell(run, kind, tag, M, rng, table, op="apply_transform", op_arg=None)
             run.state("refusal", (kind.name, grp))
             return False
         if kind.may_refuse_nonsimilarity:
-            run.violation(key("law=refused_similarity"), "primitive refused a similarity transform: %s" % e, dict(case, exception=repr(e)))
+            # the refusal does not depend on the size of the scale: one key per matrix class
+            k0 = make_key(kind.name, grp.replace("_small", "").replace("_large", ""), cached)
+            run.violation(k0("law=refused_similarity"), "primitive refused a similarity transform: %s" % e, dict(case, exception=repr(e)))
             return False
         run.violation(key("law=applies sym=exception:ValueError"), "%s raised %r" % (op, e), dict(case, exception=repr(e)))
         return False
@@ -814,6 +842,7 @@ def check_cell(run, kind, tag, M, rng, table, op="apply_transform", op_arg=None)
         pass  # tessellation is not rotated by design: judged by centre / radius in extra_laws
     elif s1.points.shape != s0.points.shape:
         run.violation(key("law=point_count_kept"), "number of points changed", dict(case, before=s0.points.shape, after=s1.points.shape))
+        return True  # every other law would only restate this
     else:
         ptol = point_tol(M, want)
         if isinstance(kind, SceneKind):
@@ -826,8 +855,10 @@ def check_cell(run, kind, tag, M, rng, table, op="apply_transform", op_arg=None)
             sym = "unchanged" if not changed else "wrong_position"
             run.violation(key("law=points_p->M.p sym=%s" % sym), "points after %s are not M.p of the points before" % op,
                           dict(case, ratio=r))
+            return True  # volume, centre of mass ... would only restate this
     # ---- connectivity / attached data
-    kind.structure_law(run, s0, s1, M, key, case)
+    if not kind.structure_law(run, s0, s1, M, key, case):
+        return True
     if s0.attached != s1.attached:
         diff = [k for k in s0.attached if s0.attached[k] != s1.attached.get(k)]
         run.violation(key("law=attached_data_kept what=%s" % "+".join(sorted(diff))), "attached data changed by the transform: %s" % diff, case)
@@ -872,24 +903,36 @@ def check_compose(run, kind, tagA, A, tagB, B, rng):
     BA = np.asarray(B.astype(np.longdouble) @ A.astype(np.longdouble), dtype=np.float64)
     gA, gB = group(tagA, A), group(tagB, B)
     cached = getattr(kind, "cached", None)
-    key = make_key(kind.name, "%s_then_%s" % (gA.split("_inside")[0].split("_outside")[0], gB.split("_inside")[0].split("_outside")[0]), cached)
+    # coarse, structural class of the pair: determinant signs and whether a factor sits at the identity shortcut
+    pair = "compose_det%s%s%s" % ("+" if props(A)[0] > 0 else "-", "+" if props(B)[0] > 0 else "-",
+                                  "_near_identity" if ("near_identity" in gA or "near_identity" in gB) else "")
+    key = make_key(kind.name + (":com_override" if getattr(kind, "override", False) else ""), pair, cached)
     case = {"kind": kind.name, "variant": getattr(kind, "variant", None), "source": getattr(kind, "source", None),
             "cached": cached, "A": A.tolist(), "B": B.tolist(), "classA": tagA, "classB": tagB, "op": "compose", "dim": kind.dim, "salt": int(kind.salt)}
     run.case("compose:%s" % kind.name, kind.name, getattr(kind, "variant", None), cached, A, B)
     o1, o2 = kind.build(rng), kind.build(rng)
     kind.warm(o1)
     s0 = kind.snap(o1)
+    if isinstance(kind, MeshKind) and kind.override:
+        s0.extra["com_override"] = np.array(kind._com, dtype=np.float64)
+    step = "A"
     try:
         o1.apply_transform(A)
         kind.warm(o1)
+        step = "B"
         o1.apply_transform(B)
+        step = "BA"
         o2.apply_transform(BA)
     except ValueError as e:
-        if kind.may_refuse_nonsimilarity and "yes" not in (props(A)[1], props(B)[1]):
-            run.count("refusals_accepted:%s" % kind.name)
-            return
-        if kind.may_refuse_nonsimilarity and not (props(A)[1] == props(B)[1] == "yes"):
-            run.count("refusals_accepted:%s" % kind.name)
+        Ms = {"A": A, "B": B, "BA": BA}[step]
+        if kind.may_refuse_nonsimilarity:
+            if props(Ms)[1] != "yes":
+                run.count("refusals_accepted:%s" % kind.name)
+                return
+            # same mechanism key as a single application of that matrix class
+            k1 = make_key(kind.name, class_of_matrix(Ms).replace("_small", "").replace("_large", ""), cached)
+            run.violation(k1("law=refused_similarity"), "primitive refused a similarity transform: %s" % e,
+                          dict(case, exception=repr(e), step=step))
             return
         run.violation(key("law=compose sym=exception:ValueError"), "composition raised %r" % (e,), dict(case, exception=repr(e)))
         return
@@ -897,15 +940,20 @@ def check_compose(run, kind, tagA, A, tagB, B, rng):
         run.violation(key("law=compose sym=exception:%s" % type(e).__name__), "composition raised %r" % (e,), dict(case, exception=repr(e)))
         return
     s1, s2 = kind.snap(o1), kind.snap(o2)
+    bandish = props(A)[3] or props(B)[3] or props(BA)[3]
     if isinstance(kind, PrimitiveKind) and kind.which == "Sphere":
         a = np.concatenate([s1.extra["center"], [s1.extra["radius"]]])
         b = np.concatenate([s2.extra["center"], [s2.extra["radius"]]])
-        if np.abs(a - b).max() > 1e-9 * (1 + np.abs(b).max()):
+        if np.abs(a - b).max() > (6e-8 if bandish else 1e-9) * (1 + np.abs(b).sum()) * (1 + float(np.abs(A).max())) * (1 + float(np.abs(B).max())):
             run.violation(key("law=compose what=sphere_parameters"), "A then B differs from B.A", case)
+        return
+    if s1.points.shape != s0.points.shape or s2.points.shape != s0.points.shape:
+        # same mechanism key as a single application of the product
+        k1 = make_key(kind.name, class_of_matrix(BA), cached)
+        run.violation(k1("law=point_count_kept"), "number of points changed", dict(case, before=s0.points.shape, after=[s1.points.shape, s2.points.shape]))
         return
     want = apply_ref(BA, s0.points)
     mags = (1 + float(np.abs(A).max())) * (1 + float(np.abs(B).max()))
-    bandish = props(A)[3] or props(B)[3] or props(BA)[3]
     tol = (6e-8 if bandish else 1e-11) * (1.0 + np.abs(s0.points).sum(axis=1)) * mags
     if isinstance(kind, SceneKind):
         tol = tol + (scene_slack(A, s0.points) + scene_slack(B, s0.points) + scene_slack(BA, s0.points)) * mags
@@ -917,7 +965,7 @@ def check_compose(run, kind, tagA, A, tagB, B, rng):
         if s1.structure.shape != s2.structure.shape or not _cyclic_equal(s1.structure, s2.structure).all():
             run.violation(key("law=compose what=winding"), "A then B winds the faces differently from B.A", case)
         # cached values carried over two transforms must still match the final arrays
-        kind.extra_laws(run, o1, s0, s1, BA, key, dict(case, matrix=BA.tolist()))
+        kind.extra_laws(run, o1, s0, s1, BA, key, dict(case, matrix=BA.tolist()), loose=bool(props(A)[3] or props(B)[3]))
     elif s1.structure != s2.structure:
         run.violation(key("law=compose what=connectivity"), "A then B gives a different structure from B.A", case)
     if s1.attached != s2.attached:
@@ -1004,7 +1052,7 @@ def workload(run):
                     continue
                 S = np.eye(d + 1)
                 S[:d, :d] *= np.asarray(sc, dtype=np.float64)
-                tg = "apply_scale_" + ("vector" if np.ndim(sc) else ("negative" if sc < 0 else ("one" if sc == 1 else "scalar")))
+                tg = "apply_scale_" + ("vector" if np.ndim(sc) else ("negative" if sc < 0 else ("one" if sc == 1 else ("scalar_small" if sc < 1e-2 else "scalar"))))
                 check_cell(run, kind, tg, S, rng, table, op="apply_scale", op_arg=sc)
             for t in (np.array([1.5, -2.0, 0.25])[:d], np.zeros(d), np.array([1e3, 0.0, -1e3])[:d]):
                 idx += 1
@@ -1016,11 +1064,11 @@ def workload(run):
             if run.out_of_time(0.9):
                 break
         run.count("rounds", 1)
-        if quick or run.out_of_time(0.6):
+        if run.out_of_time(0.45) or (quick and rounds >= 2):
             break
-        # thorough: fresh random matrices / sources for another round
+        # fresh random matrices / sources for another round
         mats = {2: all_matrices(rng, 2), 3: all_matrices(rng, 3)}
-        kinds = kinds_list(False, salt=run.seed * 1000 + rounds)
+        kinds = kinds_list(quick, salt=run.seed * 1000 + rounds)
     run.note("table_class_x_kind_x_cached", dict(sorted(table.items())))
     fe, fo = run.counters.get("mesh_flips_expected", 0), run.counters.get("mesh_flips_observed", 0)
     run.note("mesh_flips_expected_vs_observed", [fe, fo])
